@@ -46,6 +46,7 @@ import (
 	"github.com/cloudflare/circl/group"
 	"github.com/zeebo/blake3"
 	"golang.org/x/crypto/chacha20poly1305"
+	"verifharness/g10sol"
 	"verifharness/g3env"
 	"verifharness/g4pipe"
 	"verifharness/keys"
@@ -480,17 +481,62 @@ func buildTargets(r *vf.Run) []*target {
 			msgs = append(msgs, mustMarshal(ex))
 		}
 		msgs = append(msgs, mustMarshal(&link_solicit.SolicitProtocolRequest{ProtocolId: "proto/1", Context: rb(20), PeerId: pool[0].ID.String(), TransportId: 77}))
+		// what the receiving control loop does with a decoded exchange: the hash
+		// list goes into FindMatchingHashes against the local (sorted, 32-byte) hash
+		// set; a remote peer chooses the number, lengths and order of the hashes.
+		solSid := link_solicit.ComputeSessionID(pool[0].ID, pool[1].ID)
+		solLocal := link_solicit.ComputeProtocolHashes(solSid, []link_solicit.SolicitEntry{{ProtocolID: "proto/1", Context: []byte("a")}, {ProtocolID: "proto/2"}, {ProtocolID: "proto/1", Context: []byte("b")}})
+		// valid encodings whose hashes are NOT 32 bytes long / not sorted / repeated
+		for _, lens := range [][]int{{0}, {1}, {8}, {31}, {33}, {64}, {32, 31}, {31, 32}, {0, 0, 0}, {32, 33, 32}, {255}, {1000}} {
+			var hs [][]byte
+			for i, l := range lens {
+				h := rb(l)
+				if i%2 == 0 { // related to a local hash: its prefix / an extension of it
+					copy(h, solLocal[i%len(solLocal)])
+				}
+				hs = append(hs, h)
+			}
+			msgs = append(msgs, g10sol.ExchangeBody(hs))
+		}
+		msgs = append(msgs, g10sol.ExchangeBody([][]byte{solLocal[2], solLocal[0], solLocal[0], solLocal[1][:31]}))
+		msgs = append(msgs, g10sol.ExchangeBody(make([][]byte, 5000)))
 		tm := &target{name: "solicit-exchange", cmul: defaultCMul, prep: func(in []byte) func() (bool, bool) {
 			return func() (bool, bool) {
 				ex := &link_solicit.SolicitationExchange{}
 				e1 := ex.UnmarshalVT(in)
 				if e1 == nil {
-					for _, h := range ex.GetProtocolHashes() {
+					hs := ex.GetProtocolHashes()
+					for _, h := range hs {
 						_ = len(h)
+					}
+					_ = link_solicit.FindMatchingHashes(solLocal, hs)
+					_ = link_solicit.FindMatchingHashes(hs, solLocal)
+					_ = link_solicit.FindMatchingHashes(hs, hs)
+					_ = link_solicit.FindMatchingHashes(nil, hs)
+					if len(hs) > 256 {
+						hs = hs[:256]
+					}
+					sorted := append([][]byte(nil), hs...)
+					link_solicit.SortHashes(sorted)
+					_ = link_solicit.FindMatchingHashes(solLocal, sorted)
+					// remote bytes as hash inputs (session id / protocol id / context)
+					var ents []link_solicit.SolicitEntry
+					for i, h := range hs {
+						if i < 16 {
+							ents = append(ents, link_solicit.SolicitEntry{ProtocolID: protocol.ID(h), Context: h})
+						}
+					}
+					if len(hs) > 0 {
+						_ = link_solicit.ComputeProtocolHashes(hs[0], ents)
 					}
 				}
 				rq := &link_solicit.SolicitProtocolRequest{}
 				e2 := rq.UnmarshalVT(in)
+				if e2 == nil {
+					h := link_solicit.ComputeProtocolHash([]byte(rq.GetPeerId()), protocol.ID(rq.GetProtocolId()), rq.GetContext())
+					_ = link_solicit.FindMatchingHashes(solLocal, [][]byte{h, rq.GetContext()})
+					_ = link_solicit.ComputeSessionID(peer.ID(rq.GetPeerId()), peer.ID(rq.GetContext()))
+				}
 				return e1 == nil || e2 == nil, false
 			}
 		}}
@@ -972,6 +1018,7 @@ func TestCheck(t *testing.T) {
 	r := vf.Start(t, "C40", vf.Exploration)
 	defer r.Finish()
 	r.SetRule("per decoder: seeds = valid encodings from the matching real encoder; inputs = seeds + hostile length prefixes (limit+1, 16 MiB, 100 MB, 2^30, 2^31-1, 2^31, 2^32-1, as uvarint / LE32 / protobuf field length / compressed-payload length, with almost no data behind them) + seeded structured mutants (1-3 of: bit flip, interesting byte, truncate, delete, duplicate, insert, hostile varint, hostile LE32, splice, random tail); for encrypted targets also mutated plaintexts encrypted to the recipient; for envelopes additionally attacker-made, structurally VALID envelopes: grants that decrypt for an offered key (anyone can encrypt to a public key under the public grant context) carrying crafted share lists - exact and equivalent-encoding duplicates of one share id (n, n+L, ignored top bits: 16 encodings of one scalar; first / late / paired / spread over two grants), zero ids and their equivalents, oversized and wrong-length ids and values, all-ones, thousands of duplicate or distinct shares, equal / non-canonical values - x layouts {only, appended, prepended, replacing the first grant} x thresholds {0..7, 15, 100, 2^31-1, 2^32-1}, so that share decoding, de-duplication and interpolation behind the authenticated decryption are reached (the run is inconclusive if a crafted grant with ordinary shares is not decrypted). " +
+		"The solicitation exchange target also runs what the receiving control loop does with a decoded exchange (FindMatchingHashes against a local sorted 32-byte hash set in both argument orders, SortHashes, ComputeProtocolHash(es) / ComputeSessionID over the received bytes); its seeds include valid encodings whose hashes have 0/1/8/31/33/64/255/1000 bytes, prefixes / extensions of a local hash, unsorted and repeated hashes, 5000 empty hashes. LIVE target solicit-live (last): a real link/solicit controller on a controller bus with 0, 1 or 3 local solicitations and a harness link whose remote peer is the harness, in both roles (local peer id lower = it opens the control stream; higher = the harness opens it and dispatches it through the bus); after the controller's own exchange was received, ONE hostile input is written on the live control stream: one hash of 0..16000 bytes (random / prefix or extension of an advertised hash; alone, before, after the echoed advertised hashes), a 65536 byte hash, 257..8000 empty / one-byte hashes, 470 random hashes around the advertised ones (unsorted, sorted, descending), duplicates, frames of limit, limit+1, limit+2, limit+4, 2^16, 2^20 bytes sent completely, hostile LE32 lengths with 0-3 bytes behind them (peer stays / closes), truncated frames, protobuf fields with hostile lengths, garbage bodies, 1 / 3000 empty frames, 400 alternating frames, seeded mutants of valid frames; the case is journaled first; the harness waits until the controller consumed the input or closed the stream and all goroutines are parked (allocation-free goroutine-state polling); allocation oracle = process-wide TotalAlloc delta of the whole reaction <= messages-in-input * 16384 + c*len + 256 KiB; what the controller does otherwise (closes the stream / ignores the message / still serves a follow-up exchange) is recorded, not judged. " +
 		"Oracle: no panic (recovered in-goroutine; decoders that run code on their own goroutine are journaled per input so the runner attributes a crash); no (nil, nil) result; allocation: TotalAlloc delta of one decode on a locked goroutine with GC paused <= configured limit + c*len(input) + 256 KiB (c=256; envelope 2048). Non-trivial = decoder returned (value or error); distinct = distinct (target, input bytes).")
 	tBuild := time.Now()
 	targets := buildTargets(r)
@@ -1150,6 +1197,12 @@ func TestCheck(t *testing.T) {
 		}
 	}
 	r.Extra("info_phaseB_s", time.Since(tB).Seconds())
+
+	// ---- live target: hostile bytes on the live solicitation control stream of a
+	// real controller (last: a panic there is process-fatal)
+	tL := time.Now()
+	solicitLivePart(r)
+	r.Extra("info_solicit_live_s", time.Since(tL).Seconds())
 
 	per := map[string]any{}
 	for _, tg := range targets {
